@@ -9,7 +9,7 @@
        Err EOutOfFuel                 compressed sets nested deeper than `depth`
    The layers above the decoders are in C13Facts.v. *)
 From KV Require Import Base.Prelude Base.Snappy Gen.Consts Model.Codecs Model.Requests Model.Responses.
-From KV Require Import Proofs.SnappyFacts.
+From KV Require Import Proofs.BytesFacts Proofs.SnappyFacts.
 From Coq Require Import ZifyBool.
 
 Definition no_panic {A} (r : res A) : Prop :=
@@ -81,7 +81,7 @@ Qed.
 (* ---- primitives: Cursor readers ------------------------------------------------ *)
 Lemma cread_good n : (0 < n)%nat -> good (cread n).
 Proof.
-  intros Hn bs. unfold cread. destruct (Nat.ltb (length bs) n) eqn:El; cbn [lt_ok].
+  intros Hn bs. rewrite cread_unfold. destruct (Nat.ltb (length bs) n) eqn:El; cbn [lt_ok].
   - discriminate.
   - apply Nat.ltb_ge in El. rewrite skipn_length. lia.
 Qed.
@@ -109,7 +109,7 @@ Qed.
 
 Lemma dec_bytes_good : good dec_bytes.
 Proof.
-  intros bs. unfold dec_bytes. apply lt_step; [apply dec_i32_good|].
+  intros bs. rewrite dec_bytes_unfold. apply lt_step; [apply dec_i32_good|].
   intros len r Hr. cbn beta iota.
   destruct (len <=? 0); [apply le_ret; lia|].
   destruct (ulen r <? len); [apply le_err; discriminate|].
@@ -141,7 +141,7 @@ Qed.
 (* ---- primitives: slice (ZReader) readers ------------------------------------------------ *)
 Lemma zread_good n : (0 < n)%nat -> good (zread n).
 Proof.
-  intros Hn bs. unfold zread. destruct (Nat.ltb (length bs) n) eqn:El; cbn [lt_ok].
+  intros Hn bs. rewrite zread_unfold. destruct (Nat.ltb (length bs) n) eqn:El; cbn [lt_ok].
   - discriminate.
   - apply Nat.ltb_ge in El. rewrite skipn_length. lia.
 Qed.
@@ -160,7 +160,7 @@ Lemma zread_i64_good : good zread_i64. Proof. apply zread_map_good. lia. Qed.
 
 Lemma zread_bytes_good : good zread_bytes.
 Proof.
-  intros bs. unfold zread_bytes. apply lt_step; [apply zread_i32_good|].
+  intros bs. rewrite zread_bytes_unfold. apply lt_step; [apply zread_i32_good|].
   intros len r Hr. cbn beta iota.
   destruct (len <=? 0); [apply le_ret; lia|].
   destruct (Z.of_nat (length r) <? len); [apply le_err; discriminate|].
